@@ -1,20 +1,31 @@
 #!/bin/bash
-# tools/recheck_seeded.sh [names...] : every kept seeded change against /repo's current HEAD (patch applies, demo fails, quick check catches)
+# tools/recheck_seeded.sh [names...] : every kept seeded change against /repo's current HEAD (patch applies, demo
+# passes on HEAD and fails with the patch, quick check reports a VIOLATION).  PAR=<k> workers (default 3; the checks
+# themselves take run slots).  Writes seeded/STATUS.md.
 cd "$(dirname "$0")/.."
-names="$@"; [ -z "$names" ] && names=$(ls seeded | grep -v STATUS)
+names="$@"; [ -z "$names" ] && names=$(ls seeded | grep -v -E "STATUS|_not_kept")
+PAR=${PAR:-3}
 out=seeded/STATUS.md
 head=$(git -C /repo rev-parse --short HEAD)
-echo "# Seeded changes re-checked against /repo $head (quick tier, seed ${VERIF_SEED:-0})" > $out.tmp
-echo "" >> $out.tmp; echo "| change | property | patch applies | demo on HEAD | demo with patch | check |" >> $out.tmp; echo "|---|---|---|---|---|---|" >> $out.tmp
-for n in $names; do
-  id=$(echo ${n:0:3} | tr a-z A-Z)
+tmpd=$(mktemp -d /tmp/recheck-XXXXXX)
+one() {
+  n=$1; id=$(echo ${n:0:3} | tr a-z A-Z)
   r=$(tools/try_seeded.sh seeded/$n $id 2>&1)
   ap=yes; echo "$r" | grep -q "PATCH DOES NOT APPLY" && ap=NO
   d0=$(echo "$r" | grep "demo on clean HEAD" | sed 's/.*rc=//'); d1=$(echo "$r" | grep "demo with patch" | sed 's/.*rc=//')
   rc=$(echo "$r" | grep "on seeded tree" | sed 's/.*rc=//')
   mon=$(echo "$r" | grep -o "monitor=[^ ]*" | sort -u | head -3 | tr '\n' ' ')
   verdict="MISSED (rc=$rc)"; [ "$rc" = "1" ] && verdict="caught: $mon"
-  echo "| $n | $id | $ap | rc=$d0 | rc=$d1 | $verdict |" >> $out.tmp
+  echo "| $n | $id | $ap | rc=$d0 | rc=$d1 | $verdict |" > $tmpd/$n.row
   echo "$n $ap $d0 $d1 rc=$rc"
-done
-mv $out.tmp $out
+}
+export -f one; export tmpd
+echo $names | tr ' ' '\n' | xargs -P $PAR -I{} bash -c 'one {}'
+{
+  echo "# Seeded changes re-checked against /repo $head (quick tier, seed ${VERIF_SEED:-0})"
+  echo ""; echo "| change | property | patch applies | demo on HEAD | demo with patch | check |"; echo "|---|---|---|---|---|---|"
+  for n in $(ls seeded | grep -v -E "STATUS|_not_kept"); do
+    if [ -f $tmpd/$n.row ]; then cat $tmpd/$n.row; else grep "^| $n |" $out 2>/dev/null; fi
+  done
+} > $out.tmp
+mv $out.tmp $out; rm -rf $tmpd
